@@ -416,7 +416,7 @@ def r20_5(ctx):
         gs = fl.guards_at(n) or set()
         sym_arm = any("kconfiglib.Symbol" in k and p for k, p in gs)
         if sym_arm:
-            ok = ok and "len(node.item.nodes) <= 1" in t and "name_id is not None" in t
+            ok = ok and "len(node.item.nodes) <= 1" in t and ("name_id is not None" in t or "node.item.name is not None" in t)
         else:
             ok = ok and t == "False"
     st = [n for n in ast.walk(v.node) if isinstance(n, ast.Assign) and ast.unparse(n.targets[0]).startswith("self.visibility[")]
@@ -424,6 +424,18 @@ def r20_5(ctx):
     (ctx.ok(construct, v.loc(sd[0]) if sd else v.loc()) if ok else
      ctx.bad(construct, "the verdict of one definition (or of one unnamed choice) is reused for others: an option defined again inside a visible menu is omitted, or "
              "written with a breadcrumb into a menu that is not", v.loc(sd[0]) if sd else v.loc()))
+    # the key under which a verdict is remembered tells kinds apart: `config X`, `choice X` and `menu "X"` are three items
+    construct = "ConfigTargetVisibility._visible/memo key tells a symbol, a named choice and a menu title apart"
+    keys = [n for n in ast.walk(v.node) if isinstance(n, ast.Subscript) and ast.unparse(n.value) == "self.visibility"]
+    from .common import expand_locals
+    key_defs = [n for n in ast.walk(v.node) if isinstance(n, ast.Assign) and len(n.targets) == 1 and keys and ast.unparse(n.targets[0]) == ast.unparse(keys[0].slice)]
+    sym_defs = [n for n in key_defs if any("kconfiglib.Symbol" in k and p for k, p in (fl.guards_at(n) or set()))]
+    if not keys:
+        raise AnchorError("ConfigTargetVisibility._visible: the memo is no longer used")
+    okk = bool(sym_defs) and all(isinstance(n.value, ast.Tuple) and any("type(" in ast.unparse(e) for e in n.value.elts) for n in sym_defs)
+    (ctx.ok(construct, v.loc(sym_defs[0])) if okk else
+     ctx.bad(construct, "items are remembered under their bare name and every node is looked up under its name (menus: their title): a hidden `config X` hides the "
+             "always-visible `choice X`, a hidden `config LWIP` hides `menu \"LWIP\"` with everything in it", v.loc(keys[0])))
     u = repo.func(f"{DOC}:_is_undefined_reference")
     ctx.analysed(u.qual)
     src = ast.unparse(u.node)
